@@ -53,10 +53,13 @@ pub fn candidates(seed: u64) -> Vec<Value> {
     let mut out = vec![];
     let cnfs: Vec<Value> = vec![
         json!([[1, 2], [-2, 3]]), json!([[1, 2, 3]]), json!([[1, -2], [2, -3], [3, -1]]), json!([[1], [2, 3]]),
-        json!([[-1, -2], [1, 2]]), json!([[1, 2], [1, 3], [2, 3]]),
+        json!([[-1, -2], [1, 2], [3, 1]]), json!([[1, 2], [1, 3], [2, 3]]),
     ];
     let orders = [[0, 1, 2], [0, 2, 1], [1, 0, 2], [1, 2, 0], [2, 0, 1], [2, 1, 0]];
     for cnf in cnfs.iter() {
+        // the decision order must range over exactly the CNF's variables (the property's domain)
+        let nv = cnf.as_array().unwrap().iter().flat_map(|c| c.as_array().unwrap().iter().map(|l| l.as_i64().unwrap().unsigned_abs())).max().unwrap_or(1);
+        if nv != 3 { continue; }
         for order in orders.iter() {
             for neg in [false, true] {
                 for l in 0..3 {
@@ -80,6 +83,7 @@ pub fn candidates(seed: u64) -> Vec<Value> {
         }
         let mut order: Vec<u64> = vec![0, 1, 2, 3];
         for i in (1..4).rev() { let j = nx(i as u64 + 1) as usize; order.swap(i, j); }
+        if cnf.iter().flat_map(|c| c.iter().map(|l| l.unsigned_abs())).max().unwrap_or(0) != 4 { continue; }
         out.push(json!({"case": "dnnf_cond", "nvars": 4, "cnf": cnf, "order": order, "neg": nx(2) == 0, "lbl": nx(4), "val": nx(2) == 0}));
     }
     out
